@@ -61,6 +61,13 @@ func (*renderer).Render$1
   loop 0 inv [kept] forall t int {regPrio(t)} :: (0 <= t && t < old(regN())) ==> regPrio(t) == old(regPrio(t))
   loop 1 inv *r != nil && (*r).config != nil && (*r).config == old((*r).config)
 
+// the configuration OWNS its list of node renderers: adding an option's values appends to the configuration's own array or
+// to a new one, never adopts the caller's slice (Render sorts the list in place and AddOptions appends to it)
+func (*withNodeRenderers).SetConfig
+  ensures [owned] fresh(c.NodeRenderers) || arrof(c.NodeRenderers) == old(arrof(c.NodeRenderers))
+  ensures [added] len(c.NodeRenderers) == old(len(c.NodeRenderers)) + len(o.value)
+  modifies c.NodeRenderers, contents(c.NodeRenderers)
+
 // Register (only meaningful before the first Render, while the temporary table exists)
 func (*renderer).Register
   requires r.nodeRendererFuncsTmp != nil
